@@ -287,7 +287,10 @@ class BSplines():
 
             if self.periodic:
                 for i in range(d):
-                    self._integrals[n+i] = self._integrals[d-i-1]
+                    # the rest of the (wrapped) basis function lies at the other end of the period:
+                    # total integral of a B-spline of degree d minus the part already counted
+                    self._integrals[n+i] = (knots[d+2+i] - knots[i+1]) * \
+                        inv_deg - self._integrals[i]
 
 # ===============================================================================
 
